@@ -545,7 +545,7 @@ func stablePred(fn *ssa.Function, cond ssa.Value) (string, bool) {
 	ok := true
 	var walk func(v ssa.Value, depth int)
 	walk = func(v ssa.Value, depth int) {
-		if depth > 5 {
+		if depth > 16 {
 			ok = false
 			return
 		}
@@ -582,6 +582,10 @@ func stablePred(fn *ssa.Function, cond ssa.Value) (string, bool) {
 
 // earlyAccept implements A-early for one collection ("Inputs" or "Outputs").
 func (c *Ctx) earlyAccept(rule, coll, checker, skips string, floor int) {
+	c.earlyAcceptKeyed(rule, coll, checker, skips, floor, "early|")
+}
+
+func (c *Ctx) earlyAcceptKeyed(rule, coll, checker, skips string, floor int, kp string) {
 	nEarly := 0
 	for _, t := range c.txTypesDeclaring("SpecialContextCheck") {
 		fn := c.P.Func(txpkg, t, "SpecialContextCheck")
@@ -591,13 +595,13 @@ func (c *Ctx) earlyAccept(rule, coll, checker, skips string, floor int) {
 		}
 		nEarly++
 		if reason, ok := earlyAcceptTable[t]; ok {
-			c.R.Exists(rule, "early|"+t, true, c.posOf(pts[0].ret), "tabled: "+reason)
+			c.R.Exists(rule, kp+t, true, c.posOf(pts[0].ret), "tabled: "+reason)
 			continue
 		}
 		nt := c.P.NamedType(txpkg, t)
 		chk := c.P.MethodOf(nt, checker)
 		if chk == nil {
-			c.R.Undecided(rule, "early|"+t, c.posOf(pts[0].ret), checker+" not found")
+			c.R.Undecided(rule, kp+t, c.posOf(pts[0].ret), checker+" not found")
 			continue
 		}
 		seen := map[string]bool{}
@@ -622,6 +626,15 @@ func (c *Ctx) earlyAccept(rule, coll, checker, skips string, floor int) {
 					}
 				}
 			}
+			// the early flag itself may be a stable predicate (return nil, h <= H)
+			if pt.block == pt.ret.Block() {
+				if _, isC := pt.ret.Results[1].(*ssa.Const); !isC {
+					if sp, ok := stablePred(fn, pt.ret.Results[1]); ok {
+						_, neg := ssau.StripNot(pt.ret.Results[1])
+						guards = append(guards, g{sp, !neg})
+					}
+				}
+			}
 			var gs []string
 			for _, x := range guards {
 				gs = append(gs, fmt.Sprintf("%s=%v", x.s, x.arm))
@@ -631,7 +644,7 @@ func (c *Ctx) earlyAccept(rule, coll, checker, skips string, floor int) {
 			if desc == "" {
 				desc = "unconditional"
 			}
-			key := "early|" + t + "|" + desc
+			key := kp + t + "|" + desc
 			if seen[key] {
 				continue
 			}
